@@ -573,6 +573,14 @@ class Arr:
                     self.v[i] = vals[j]
                     j += 1
             return
+        if isinstance(k, Arr):
+            # integer index array: positional scatter
+            vals = v.v if isinstance(v, Arr) else [v] * len(k.v)
+            if len(vals) != len(k.v):
+                raise Raised("ValueError", "shape mismatch in an indexed store")
+            for i, x in zip(k.v, vals):
+                self.v[_i(i)] = x
+            return
         self.v[_i(k)] = v
 
     # methods
